@@ -41,7 +41,7 @@ def clone(n):
         for f in n._fields:
             if hasattr(n, f):
                 setattr(new, f, clone(getattr(n, f)))
-        for a in ("lineno", "col_offset", "end_lineno", "end_col_offset", "_qualname", "_inline_block", "_was_return", "_caller_stmt"):
+        for a in ("lineno", "col_offset", "end_lineno", "end_col_offset", "_qualname", "_inline_block", "_was_return", "_caller_stmt", "_implicit_raise"):
             if hasattr(n, a):
                 setattr(new, a, getattr(n, a))
         return new
